@@ -17,6 +17,10 @@ from cython.parallel import parallel, prange, threadid
 # EPS_MAX is maximum value of eps in tree building
 DEF EPS_MAX = 1e-3
 
+# MAX_DEPTH is the level below which nodes are not subdivided any further
+# (coincident particles can never be separated)
+DEF MAX_DEPTH = 64
+
 ctypedef cOctreeNode* node_ptr
 ctypedef double* dbl_ptr
 
@@ -215,6 +219,11 @@ cdef class Octree:
 
     @cython.cdivision(True)
     cdef inline double _get_eps(self, double length, double* xmin) noexcept nogil:
+        if length == 0:
+            # A box of zero size (all its particles coincide) cannot be
+            # resolved any further.  Any value above EPS_MAX says so; the
+            # expression below would give inf or nan.
+            return 1.0
         return (self.machine_eps/length)*fmax(length,
                 fmax(fmax(fabs(xmin[0]), fabs(xmin[1])), fabs(xmin[2])))
 
@@ -314,7 +323,8 @@ cdef class Octree:
         # is mentioned in pysph.base.tests.test_octree
         cdef double eps = 2*self._get_eps(length, xmin)
 
-        if (indices.size() < self.leaf_max_particles) or (eps > EPS_MAX):
+        if (indices.size() < self.leaf_max_particles) or (eps > EPS_MAX) \
+                or (level >= MAX_DEPTH):
             copy(indices.begin(), indices.end(), self.pids + self._next_pid)
             node.start_index = self._next_pid
             self._next_pid += indices.size()
@@ -599,7 +609,8 @@ cdef class Octree:
 
                                 eps_new = 2*self._get_eps(length_padded, xmin_new)
 
-                                if (num_p < self.leaf_max_particles) or (eps_new > EPS_MAX):
+                                if (num_p < self.leaf_max_particles) or (eps_new > EPS_MAX) \
+                                        or (level + 1 >= MAX_DEPTH):
                                     node.children[oct_id].is_leaf = True
                                     continue
                                 new_nodes[tid].push_back(node.children[oct_id])
@@ -873,7 +884,8 @@ cdef class CompressedOctree(Octree):
 
         cdef int oct_id
 
-        if (indices.size() < self.leaf_max_particles):
+        # a box of zero size holds coincident particles only
+        if (indices.size() < self.leaf_max_particles) or (length == 0):
             copy(indices.begin(), indices.end(), self.pids + self._next_pid)
             node.start_index = self._next_pid
             self._next_pid += indices.size()
@@ -981,7 +993,8 @@ cdef class CompressedOctree(Octree):
         cdef double eps
         n =  node.num_particles
 
-        if (n < self.leaf_max_particles):
+        # a box of zero size holds coincident particles only
+        if (n < self.leaf_max_particles) or (length == 0):
             for i in range(n):
                 self.pids[i] = i
             node.is_leaf = True
@@ -1100,7 +1113,8 @@ cdef class CompressedOctree(Octree):
             new_node.num_particles = count[oct_id]
             count[oct_id] = c
             c = c + new_node.num_particles
-            if (new_node.num_particles < self.leaf_max_particles):
+            if (new_node.num_particles < self.leaf_max_particles) or \
+                    (length_new == 0):
                 new_node.is_leaf = True
                 continue
             next_level_nodes.push_back(new_node)
@@ -1258,7 +1272,8 @@ cdef class CompressedOctree(Octree):
                             p_indices[start+l] = new_indices[oct_id][l]
                         start = start + new_indices[oct_id].size()
 
-                        if (num_p < self.leaf_max_particles):
+                        if (num_p < self.leaf_max_particles) or \
+                                (length_new == 0):
                             node.children[oct_id].is_leaf = True
                             continue
                         new_nodes[tid].push_back(node.children[oct_id])
